@@ -110,6 +110,46 @@ func genericRelation() error {
 	if c != 2 {
 		return fmt.Errorf("filter with fixed target selects %d, expected 2", c)
 	}
+	// a filter with a fixed target keeps selecting that target across Register / Unregister
+	f3 := generic.NewFilter1[GRel]().WithRelation(generic.T[GRel](), t1g)
+	count := func() int {
+		q := f3.Query(&gg.w)
+		n := q.Count()
+		q.Close()
+		return n
+	}
+	before := count()
+	f3.Register(&gg.w)
+	during := count()
+	f3.Unregister(&gg.w)
+	after := count()
+	if before != 2 || during != 2 || after != 2 {
+		return fmt.Errorf("filter with fixed relation target selects %d before, %d while and %d after being registered; the core RelationFilter selects 2", before, during, after)
+	}
+	// Exchange: the relation is part of the configuration whatever the order of the builder calls
+	for order := 0; order < 3; order++ {
+		var ex *generic.Exchange
+		switch order {
+		case 0:
+			ex = generic.NewExchange(&gg.w).Adds(generic.T[GRel](), generic.T[GA0]()).WithRelation(generic.T[GRel]())
+		case 1:
+			ex = generic.NewExchange(&gg.w).WithRelation(generic.T[GRel]()).Adds(generic.T[GRel](), generic.T[GA0]())
+		default:
+			ex = generic.NewExchange(&gg.w).Adds(generic.T[GRel]()).WithRelation(generic.T[GRel]()).Adds(generic.T[GRel](), generic.T[GA0]())
+		}
+		a := ex.NewEntity(t1g)
+		b := ecs.NewBuilder(&gc.w, gc.rel, gc.ids[0]).WithRelation(gc.rel).New(t1c)
+		if a != b || gdump(gg) != gdump(gc) {
+			return fmt.Errorf("Exchange (builder call order %d).NewEntity(target) differs from Builder.WithRelation.New(target)", order)
+		}
+		plain := gg.w.NewEntity(gg.x)
+		plainC := gc.w.NewEntity(gc.x)
+		ex.Add(plain, t2g)
+		gc.w.Relations().Exchange(plainC, []ecs.ID{gc.rel, gc.ids[0]}, nil, gc.rel, t2c)
+		if gdump(gg) != gdump(gc) {
+			return fmt.Errorf("Exchange (builder call order %d).Add(entity, target) differs from Relations.Exchange", order)
+		}
+	}
 	// SetRelation through Map[T]
 	mr := generic.NewMap[GRel](&gg.w)
 	es := gg.w.VerifAliveEntities()
